@@ -238,10 +238,12 @@ async fn echo_scenario(a: &ShardArgs, idx: u64) {
                         catalogue.push(Some((mi, 1)));
                     }
                 }
-                // IIN2 rejections
-                catalogue.push(Some((usize::MAX, 0)));
-                if sbo {
-                    catalogue.push(Some((usize::MAX, 1)));
+                // IIN2 rejections: each of the three request-error bits on its own, at either step
+                for k in 0..3 {
+                    catalogue.push(Some((usize::MAX - k, 0)));
+                    if sbo {
+                        catalogue.push(Some((usize::MAX - k, 1)));
+                    }
                 }
             }
             hist.clear();
@@ -257,10 +259,11 @@ async fn echo_scenario(a: &ShardArgs, idx: u64) {
             let mut label = "faithful".to_string();
             // step 0
             let (body0, iin2_0) = match case {
-                Some((mi, 0)) if mi == usize::MAX => {
+                Some((mi, 0)) if mi >= usize::MAX - 2 => {
                     expect_ok = false;
-                    label = "iin2/step0".into();
-                    (objs.clone(), ra::IIN2_PARAM_ERROR)
+                    let bit = [ra::IIN2_PARAM_ERROR, ra::IIN2_OBJECT_UNKNOWN, ra::IIN2_NO_FUNC][usize::MAX - mi];
+                    label = format!("iin2-{bit:02x}/step0");
+                    (objs.clone(), bit)
                 }
                 Some((mi, 0)) => {
                     expect_ok = false;
@@ -338,10 +341,11 @@ async fn echo_scenario(a: &ShardArgs, idx: u64) {
                         seq = op[0] & 15;
                         // step 1
                         let (body1, iin2_1) = match case {
-                            Some((mi, 1)) if mi == usize::MAX => {
+                            Some((mi, 1)) if mi >= usize::MAX - 2 => {
                                 expect_ok = false;
-                                label = "iin2/step1".into();
-                                (objs.clone(), ra::IIN2_NO_FUNC)
+                                let bit = [ra::IIN2_PARAM_ERROR, ra::IIN2_OBJECT_UNKNOWN, ra::IIN2_NO_FUNC][usize::MAX - mi];
+                                label = format!("iin2-{bit:02x}/step1");
+                                (objs.clone(), bit)
                             }
                             Some((mi, 1)) => {
                                 expect_ok = false;
@@ -607,7 +611,8 @@ fn spoil_file_reply(reply: &[u8], rq: &[u8], m: u8) -> Option<(Vec<u8>, &'static
         }
         3 => {
             b.truncate(4);
-            b[3] = 0x01;
+            // one of the three request-error bits, chosen by the request's sequence number
+            b[3] = [0x01u8, 0x02, 0x04][(rq[0] & 0x0F) as usize % 3];
             Some((b, "iin2-no-func"))
         }
         4 => {
